@@ -1047,6 +1047,12 @@ class Interp:
                     self.bind_args(fi, args, kwargs, tmp)
                     full = [tmp.locals[a.arg] for a in fi.node.args.args]
                     nref = len(dec[1].node.args.args)
+                    if len(dec) > 2 and dec[2] is not None:
+                        # the callee's contract was proved under this precondition: prove it here
+                        npre = len(dec[2].node.args.args)
+                        ok = ops.truthy(self, self.call_function(dec[2], full[:npre], {}, force_inline=True))
+                        self.ctx.oblige("%s.callsite[%s]" % (self.ctx.ghost.get("contract_name", "?"), fi.key), ok,
+                                        info={"callsite": self.ctx.cur_func})
                     return self.call_function(dec[1], full[:nref], {}, force_inline=True)
                 if kind == "custom":
                     return dec[1](self, fi, args, kwargs)
